@@ -323,6 +323,22 @@ Ltac stage :=
       unfold M32, M64 in E; repeat (lane_rewrite_in E); clearbody v; subst v
   end.
 
+(** the same when the lets are on the left of an equation *)
+Ltac pull_let :=
+  match goal with |- (let x := ?a in @?f x) = ?r => change (let x := a in f x = r); cbv beta end.
+Ltac stage_eq := pull_let; stage.
+
+(** recover the sharing lost by zeta-expansion: name the innermost lanewise addition whose first operand is already in
+    lane form, normalise it in a small context, substitute *)
+Ltac restage :=
+  match goal with
+  | |- context [add_lanes ?w (unlanes ?w ?L) ?Y] =>
+      let v := fresh "v" in let E := fresh "E" in
+      set (v := add_lanes w (unlanes w L) Y);
+      pose proof (eq_refl v) as E; unfold v at 2 in E; unfold M32, M64 in E;
+      repeat (lane_rewrite_in E); clearbody v; subst v
+  end.
+
 Ltac lanes_finish :=
   f_equal; repeat (apply f_equal2; [flatten_mods; f_equal; lia|]); try reflexivity.
 
@@ -368,26 +384,7 @@ Lemma avx2_psum64_compute a0 a1 a2 a3 s :
   v = unlanes 8 (pflat M64 s [a0; a1; a2; a3]).
 Proof. repeat stage. cbn [pflat]. unfold M64. lanes_finish. Qed.
 
-Lemma avx512_psum32_compute a0 a1 a2 a3 a4 a5 a6 a7 a8 a9 a10 a11 a12 a13 a14 a15 s :
-  let z := zeros 64 in
-  let v := unlanes 4 [a0; a1; a2; a3; a4; a5; a6; a7; a8; a9; a10; a11; a12; a13; a14; a15] in
-  let v := add_lanes 4 v (mm512_maskz_alignr_epi32 0xFFFE v z 15) in
-  let v := add_lanes 4 v (mm512_maskz_alignr_epi32 0xFFFC v z 14) in
-  let v := add_lanes 4 v (mm512_maskz_alignr_epi32 0xFFF0 v z 12) in
-  let v := add_lanes 4 v (mm512_maskz_alignr_epi32 0xFF00 v z 8) in
-  let v := add_lanes 4 v (mm512_set1_epi32 s) in
-  v = unlanes 4 (pflat M32 s [a0; a1; a2; a3; a4; a5; a6; a7; a8; a9; a10; a11; a12; a13; a14; a15]).
-Proof. repeat stage. cbn [pflat]. unfold M32. lanes_finish. Qed.
 
-Lemma avx512_psum64_compute a0 a1 a2 a3 a4 a5 a6 a7 s :
-  let z := zeros 64 in
-  let v := unlanes 8 [a0; a1; a2; a3; a4; a5; a6; a7] in
-  let v := add_lanes 8 v (mm512_maskz_alignr_epi64 0xFE v z 7) in
-  let v := add_lanes 8 v (mm512_maskz_alignr_epi64 0xFC v z 6) in
-  let v := add_lanes 8 v (mm512_maskz_alignr_epi64 0xF0 v z 4) in
-  let v := add_lanes 8 v (mm512_set1_epi64 s) in
-  v = unlanes 8 (pflat M64 s [a0; a1; a2; a3; a4; a5; a6; a7]).
-Proof. repeat stage. cbn [pflat]. unfold M64. lanes_finish. Qed.
 
 (* ------------------------------------------------------------------ the kernels *)
 
@@ -407,7 +404,7 @@ Proof.
   pose proof (S_pflat 4 buf init 4 i s Hmod) as EP. cbn [seq map] in EP.
   rewrite sums_unlanes. cbn [seq map]. rewrite EP. change (Mw 4) with M32.
   assert (ES : S_ 4 buf init (i + 4) = last (pflat M32 s [A 4 buf i; A 4 buf (S i); A 4 buf (S (S i)); A 4 buf (S (S (S i)))]) 0%N).
-  { replace (i + 4) with (S (S (S (S i)))) by lia. change M32 with (Mw 4). rewrite <- EP. reflexivity. }
+  { replace (i + 4) with (S (S (S (S i)))) by lia. change M32 with (Mw 4). rewrite <- EP. cbn [last]. reflexivity. }
   rewrite ES. clear ES EP.
   cbn [pflat last].
   rewrite store_ok by (rewrite unlanes_length; cbn [length]; lia). cbn [bind].
@@ -430,7 +427,7 @@ Proof.
   pose proof (S_pflat 8 buf init 2 i s Hmod) as EP. cbn [seq map] in EP.
   rewrite sums_unlanes. cbn [seq map]. rewrite EP. change (Mw 8) with M64.
   assert (ES : S_ 8 buf init (i + 2) = last (pflat M64 s [A 8 buf i; A 8 buf (S i)]) 0%N).
-  { replace (i + 2) with (S (S i)) by lia. change M64 with (Mw 8). rewrite <- EP. reflexivity. }
+  { replace (i + 2) with (S (S i)) by lia. change M64 with (Mw 8). rewrite <- EP. cbn [last]. reflexivity. }
   rewrite ES. clear ES EP.
   cbn [pflat last].
   rewrite store_ok by (rewrite unlanes_length; cbn [length]; lia). cbn [bind].
@@ -453,7 +450,7 @@ Proof.
   pose proof (S_pflat 4 buf init 8 i s Hmod) as EP. cbn [seq map] in EP.
   rewrite sums_unlanes. cbn [seq map]. rewrite EP. change (Mw 4) with M32.
   assert (ES : S_ 4 buf init (i + 8) = last (pflat M32 s [A 4 buf i; A 4 buf (S i); A 4 buf (S (S i)); A 4 buf (S (S (S i))); A 4 buf (S (S (S (S i)))); A 4 buf (S (S (S (S (S i))))); A 4 buf (S (S (S (S (S (S i)))))); A 4 buf (S (S (S (S (S (S (S i)))))))]) 0%N).
-  { replace (i + 8) with (S (S (S (S (S (S (S (S i)))))))) by lia. change M32 with (Mw 4). rewrite <- EP. reflexivity. }
+  { replace (i + 8) with (S (S (S (S (S (S (S (S i)))))))) by lia. change M32 with (Mw 4). rewrite <- EP. cbn [last]. reflexivity. }
   rewrite ES. clear ES EP.
   cbn [pflat last].
   rewrite store_ok by (rewrite unlanes_length; cbn [length]; lia). cbn [bind].
@@ -476,7 +473,7 @@ Proof.
   pose proof (S_pflat 8 buf init 4 i s Hmod) as EP. cbn [seq map] in EP.
   rewrite sums_unlanes. cbn [seq map]. rewrite EP. change (Mw 8) with M64.
   assert (ES : S_ 8 buf init (i + 4) = last (pflat M64 s [A 8 buf i; A 8 buf (S i); A 8 buf (S (S i)); A 8 buf (S (S (S i)))]) 0%N).
-  { replace (i + 4) with (S (S (S (S i)))) by lia. change M64 with (Mw 8). rewrite <- EP. reflexivity. }
+  { replace (i + 4) with (S (S (S (S i)))) by lia. change M64 with (Mw 8). rewrite <- EP. cbn [last]. reflexivity. }
   rewrite ES. clear ES EP.
   cbn [pflat last].
   rewrite store_ok by (rewrite unlanes_length; cbn [length]; lia). cbn [bind].
@@ -491,16 +488,21 @@ Proof.
   apply (psum_kernel_eq 4 count buf init ltac:(lia) L 16 avx512_psum32_block ltac:(lia)).
   intros i b s Hi HP. pose proof HP as [Lb [Hs _]]. unfold avx512_psum32_block.
   rewrite load_ok by lia. cbn [bind].
-  change (sub b (i * 4) 64) with (sub b (i * 4) (16 * 4)). rewrite (block_input 4 count buf init ltac:(lia) L B i 16 b s Hi HP).
+  change (sub b (i * 4) 64) with (sub b (i * 4) (16 * 4)).
+  rewrite (block_input 4 count buf init ltac:(lia) L B i 16 b s Hi HP).
   cbn [seq map].
-  pose proof (avx512_psum32_compute (A 4 buf i) (A 4 buf (S i)) (A 4 buf (S (S i))) (A 4 buf (S (S (S i)))) (A 4 buf (S (S (S (S i))))) (A 4 buf (S (S (S (S (S i)))))) (A 4 buf (S (S (S (S (S (S i))))))) (A 4 buf (S (S (S (S (S (S (S i)))))))) (A 4 buf (S (S (S (S (S (S (S (S i))))))))) (A 4 buf (S (S (S (S (S (S (S (S (S i)))))))))) (A 4 buf (S (S (S (S (S (S (S (S (S (S i))))))))))) (A 4 buf (S (S (S (S (S (S (S (S (S (S (S i)))))))))))) (A 4 buf (S (S (S (S (S (S (S (S (S (S (S (S i))))))))))))) (A 4 buf (S (S (S (S (S (S (S (S (S (S (S (S (S i)))))))))))))) (A 4 buf (S (S (S (S (S (S (S (S (S (S (S (S (S (S i))))))))))))))) (A 4 buf (S (S (S (S (S (S (S (S (S (S (S (S (S (S (S i)))))))))))))))) s) as E. cbv zeta in E. rewrite E. clear E.
+  repeat restage.
   assert (Hmod : (s mod Mw 4 = S_ 4 buf init i)%N)
     by (rewrite Hs; apply N.mod_small, S_lt).
   pose proof (S_pflat 4 buf init 16 i s Hmod) as EP. cbn [seq map] in EP.
   rewrite sums_unlanes. cbn [seq map]. rewrite EP. change (Mw 4) with M32.
   assert (ES : S_ 4 buf init (i + 16) = last (pflat M32 s [A 4 buf i; A 4 buf (S i); A 4 buf (S (S i)); A 4 buf (S (S (S i))); A 4 buf (S (S (S (S i)))); A 4 buf (S (S (S (S (S i))))); A 4 buf (S (S (S (S (S (S i)))))); A 4 buf (S (S (S (S (S (S (S i))))))); A 4 buf (S (S (S (S (S (S (S (S i)))))))); A 4 buf (S (S (S (S (S (S (S (S (S i))))))))); A 4 buf (S (S (S (S (S (S (S (S (S (S i)))))))))); A 4 buf (S (S (S (S (S (S (S (S (S (S (S i))))))))))); A 4 buf (S (S (S (S (S (S (S (S (S (S (S (S i)))))))))))); A 4 buf (S (S (S (S (S (S (S (S (S (S (S (S (S i))))))))))))); A 4 buf (S (S (S (S (S (S (S (S (S (S (S (S (S (S i)))))))))))))); A 4 buf (S (S (S (S (S (S (S (S (S (S (S (S (S (S (S i)))))))))))))))]) 0%N).
-  { replace (i + 16) with (S (S (S (S (S (S (S (S (S (S (S (S (S (S (S (S i)))))))))))))))) by lia. change M32 with (Mw 4). rewrite <- EP. reflexivity. }
+  { replace (i + 16) with (S (S (S (S (S (S (S (S (S (S (S (S (S (S (S (S i)))))))))))))))) by lia. change M32 with (Mw 4). rewrite <- EP. cbn [last]. reflexivity. }
   rewrite ES. clear ES EP.
+  match goal with |- context [store b _ (unlanes 4 ?LL)] =>
+    assert (EL : unlanes 4 LL = unlanes 4 (pflat M32 s [A 4 buf i; A 4 buf (S i); A 4 buf (S (S i)); A 4 buf (S (S (S i))); A 4 buf (S (S (S (S i)))); A 4 buf (S (S (S (S (S i))))); A 4 buf (S (S (S (S (S (S i)))))); A 4 buf (S (S (S (S (S (S (S i))))))); A 4 buf (S (S (S (S (S (S (S (S i)))))))); A 4 buf (S (S (S (S (S (S (S (S (S i))))))))); A 4 buf (S (S (S (S (S (S (S (S (S (S i)))))))))); A 4 buf (S (S (S (S (S (S (S (S (S (S (S i))))))))))); A 4 buf (S (S (S (S (S (S (S (S (S (S (S (S i)))))))))))); A 4 buf (S (S (S (S (S (S (S (S (S (S (S (S (S i))))))))))))); A 4 buf (S (S (S (S (S (S (S (S (S (S (S (S (S (S i)))))))))))))); A 4 buf (S (S (S (S (S (S (S (S (S (S (S (S (S (S (S i)))))))))))))))]))
+      by (cbn [pflat]; unfold M32; lanes_finish);
+    rewrite EL; clear EL end.
   cbn [pflat last].
   rewrite store_ok by (rewrite unlanes_length; cbn [length]; lia). cbn [bind].
   rewrite load_ok by (rewrite length_upd by (rewrite unlanes_length; cbn [length]; lia); lia). cbn [bind].
@@ -517,16 +519,21 @@ Proof.
   apply (psum_kernel_eq 8 count buf init ltac:(lia) L 8 avx512_psum64_block ltac:(lia)).
   intros i b s Hi HP. pose proof HP as [Lb [Hs _]]. unfold avx512_psum64_block.
   rewrite load_ok by lia. cbn [bind].
-  change (sub b (i * 8) 64) with (sub b (i * 8) (8 * 8)). rewrite (block_input 8 count buf init ltac:(lia) L B i 8 b s Hi HP).
+  change (sub b (i * 8) 64) with (sub b (i * 8) (8 * 8)).
+  rewrite (block_input 8 count buf init ltac:(lia) L B i 8 b s Hi HP).
   cbn [seq map].
-  pose proof (avx512_psum64_compute (A 8 buf i) (A 8 buf (S i)) (A 8 buf (S (S i))) (A 8 buf (S (S (S i)))) (A 8 buf (S (S (S (S i))))) (A 8 buf (S (S (S (S (S i)))))) (A 8 buf (S (S (S (S (S (S i))))))) (A 8 buf (S (S (S (S (S (S (S i)))))))) s) as E. cbv zeta in E. rewrite E. clear E.
+  repeat restage.
   assert (Hmod : (s mod Mw 8 = S_ 8 buf init i)%N)
     by (rewrite Hs; apply N.mod_small, S_lt).
   pose proof (S_pflat 8 buf init 8 i s Hmod) as EP. cbn [seq map] in EP.
   rewrite sums_unlanes. cbn [seq map]. rewrite EP. change (Mw 8) with M64.
   assert (ES : S_ 8 buf init (i + 8) = last (pflat M64 s [A 8 buf i; A 8 buf (S i); A 8 buf (S (S i)); A 8 buf (S (S (S i))); A 8 buf (S (S (S (S i)))); A 8 buf (S (S (S (S (S i))))); A 8 buf (S (S (S (S (S (S i)))))); A 8 buf (S (S (S (S (S (S (S i)))))))]) 0%N).
-  { replace (i + 8) with (S (S (S (S (S (S (S (S i)))))))) by lia. change M64 with (Mw 8). rewrite <- EP. reflexivity. }
+  { replace (i + 8) with (S (S (S (S (S (S (S (S i)))))))) by lia. change M64 with (Mw 8). rewrite <- EP. cbn [last]. reflexivity. }
   rewrite ES. clear ES EP.
+  match goal with |- context [store b _ (unlanes 8 ?LL)] =>
+    assert (EL : unlanes 8 LL = unlanes 8 (pflat M64 s [A 8 buf i; A 8 buf (S i); A 8 buf (S (S i)); A 8 buf (S (S (S i))); A 8 buf (S (S (S (S i)))); A 8 buf (S (S (S (S (S i))))); A 8 buf (S (S (S (S (S (S i)))))); A 8 buf (S (S (S (S (S (S (S i)))))))]))
+      by (cbn [pflat]; unfold M64; lanes_finish);
+    rewrite EL; clear EL end.
   cbn [pflat last].
   rewrite store_ok by (rewrite unlanes_length; cbn [length]; lia). cbn [bind].
   rewrite load_ok by (rewrite length_upd by (rewrite unlanes_length; cbn [length]; lia); lia). cbn [bind].
